@@ -129,7 +129,7 @@ def same_json_or_text(a, b):
 
 @st.composite
 def http_cases(draw):
-    case = draw(st.one_of(dc.grammar_cases(modes=["funcs"]), dc.grammar_cases(modes=["funcs"]), dc.damage_cases(), dc.damage_cases(),
+    case = draw(gen.pick(dc.grammar_cases(modes=["funcs"]), dc.grammar_cases(modes=["funcs"]), dc.damage_cases(), dc.damage_cases(),
                           dc.long_cases(20000)))
     case["sizes"] = draw(st.lists(st.integers(1, 200), max_size=6))
     return case
@@ -158,13 +158,13 @@ descriptor_names = st.sampled_from([
     "decimal Decimal", "decimal.Decimal\n", "décimal.Decimal", "os", "builtins.object", "builtins.dict", "builtins.int",
     "json.JSONDecoder", "types.SimpleNamespace",
 ])
-descriptor_args = st.one_of(st.lists(gen.json_values(3), max_size=2), st.dictionaries(st.sampled_from(["a", "value"]), gen.json_values(3), max_size=2),
+descriptor_args = gen.pick(st.lists(gen.json_values(3), max_size=2), st.dictionaries(st.sampled_from(["a", "value"]), gen.json_values(3), max_size=2),
                             gen.json_values(3))
 
 
 @st.composite
 def descriptor_values(draw):
-    desc = draw(st.one_of(
+    desc = draw(gen.pick(
         st.tuples(descriptor_names, descriptor_args).map(list),
         st.lists(gen.json_values(3), max_size=3),
         gen.json_values(3),
